@@ -4,17 +4,19 @@
 # optional argument: a shell pattern of seed ids (e.g. "*-r[23]-*")
 cd /verif
 W=/tmp/rws-matrix-repo; B=/tmp/rws-matrix-build
-git -C /repo worktree remove --force $W 2>/dev/null; rm -rf $W $B
+git -C /repo worktree remove --force $W 2>/dev/null; rm -rf $W $B $S
 git -C /repo worktree add -q --detach $W HEAD || exit 2
+# the checks run from a SNAPSHOT of /verif, so that contracts can be edited while a matrix runs
+S=/tmp/rws-matrix-verif; rm -rf $S; mkdir -p $S; rsync -a --exclude build --exclude .git --exclude seeded --exclude seeded_obsolete --exclude harmless --exclude "falsify/docroot" /verif/ $S/
 mkdir -p $B
 for d in seeded/${1:-*}/; do
   id=$(basename $d); p=${id%%-*}
   if ! grep -q "\"property_id\": \"$p\"" MANIFEST.json; then echo "$id $p not-claimed"; continue; fi
   if ! git -C $W apply --3way /verif/seeded/$id/patch.diff >/dev/null 2>&1; then echo "$id $p patch-does-not-apply"; git -C $W reset -q; git -C $W checkout -- .; continue; fi
   git -C $W reset -q
-  out=$(RWS_REPO=$W RWS_BUILD_DIR=$B RWS_EVIDENCE_DIR=$B/evidence ./check $p 2>&1); rc=$?
+  out=$(RWS_REPO=$W RWS_BUILD_DIR=$B RWS_EVIDENCE_DIR=$B/evidence $S/check $p 2>&1); rc=$?
   how=$(echo "$out" | grep -E "^(FAILED-OBLIGATION|FAILED-ON-REAL-CODE|UNDECIDED|OK)" | head -1 | cut -c1-170)
   echo "$id $p exit=$rc :: $how"
   git -C $W checkout -- .
 done
-git -C /repo worktree remove --force $W; rm -rf $W $B
+git -C /repo worktree remove --force $W; rm -rf $W $B $S
